@@ -37,6 +37,7 @@ type Obligation struct {
 	done     bool
 	GoalText string
 	smtKeep  string
+	smtFull  string
 	logic    string
 	members  []*Obligation
 	batch    *Obligation
@@ -56,6 +57,14 @@ type State struct {
 	globals map[string]*Value
 	alloc   *Term
 	defers  []*deferred
+	pending []*pendingHavoc
+}
+
+// pendingHavoc: a havoc event that also applies to heap arrays not yet
+// materialised in the state (arrays are created on first access).
+type pendingHavoc struct {
+	id int
+	fi *frameInfo
 }
 
 type deferred struct {
@@ -119,9 +128,12 @@ type Exec struct {
 	guardMarks    []int
 	useStrCat     bool
 	useStrOf      bool
+	useHashable   bool
 	extraHavoc    []types.Object
 	noGuard       int
 	skolem        bool
+	initKeys      map[string]bool
+	havocId       int
 	pendingHavoc  []string
 	guardHook     func(st *State, structT types.Type, field string, ptr *Term, at ast.Node, write bool)
 }
@@ -148,6 +160,7 @@ func (st *State) clone() *State {
 		n.globals[k] = v
 	}
 	n.defers = append([]*deferred{}, st.defers...)
+	n.pending = append([]*pendingHavoc{}, st.pending...)
 	return n
 }
 
@@ -235,11 +248,19 @@ func (x *Exec) heapArr(st *State, key string, elem *Sort) *Term {
 	if a, ok := st.heap[key]; ok {
 		return a
 	}
+	for i := len(st.pending) - 1; i >= 0; i-- {
+		p := st.pending[i]
+		if (p.fi.heapAll && (p.fi.keep == nil || !p.fi.keep(key))) || (!p.fi.heapAll && p.fi.matches(key)) {
+			a := x.b.Var(fmt.Sprintf("Hh%d.%s", p.id, key), ArraySort(RefSort, elem))
+			st.heap[key] = a
+			return a
+		}
+	}
 	a := x.b.Var("H0."+key, ArraySort(RefSort, elem))
 	st.heap[key] = a
 	// also record in old states so old(...) sees the same initial array
 	for _, o := range x.oldStack {
-		if _, ok := o.heap[key]; !ok {
+		if _, ok := o.heap[key]; !ok && len(o.pending) == 0 {
 			o.heap[key] = a
 		}
 	}
@@ -293,6 +314,12 @@ func (x *Exec) assumeWellFormed(st *State, v *Value) {
 		x.assume(st, x.b.And(cs...))
 	case kIface:
 		x.assume(st, x.b.Le(x.b.Int(0), v.L["tag"], true))
+	case kString:
+		t := v.L[""]
+		if t.Op == "var" || t.Op == "app" || t.Op == "select" {
+			ln := x.strLen(t)
+			x.assume(st, x.b.Le(x.b.Num(big.NewInt(0), ln.Sort), ln, true))
+		}
 	}
 }
 
@@ -336,10 +363,19 @@ func (x *Exec) havocHeap(st *State, why string, keep func(key string) bool) {
 		}
 		st.heap[k] = x.b.Fresh("H."+k, a.Sort)
 	}
+	x.havocId++
+	if keep == nil {
+		st.pending = append(st.pending, &pendingHavoc{x.havocId, &frameInfo{heapAll: true}})
+	} else {
+		st.pending = append(st.pending, &pendingHavoc{x.havocId, &frameInfo{heapAll: true, keep: keep}})
+	}
 	na := x.b.Fresh("alloc", IntSort)
 	x.assume(st, x.b.Le(st.alloc, na, true))
 	st.alloc = na
 	for k, g := range st.globals {
+		if strings.HasPrefix(k, "const.") || strings.HasPrefix(k, "ghost.") {
+			continue
+		}
 		if keep != nil && keep("global."+k) {
 			continue
 		}
@@ -372,6 +408,14 @@ func (x *Exec) merge2(a, c *State) *State {
 			} else {
 				n.env[o] = x.mergeV(ca, va, vc)
 			}
+		} else if va.L != nil {
+			// declared on one side only: unconstrained on the other
+			n.env[o] = x.mergeV(ca, va, x.freshValue(va.T, "undef."+o.Name()))
+		}
+	}
+	for o, vc := range c.env {
+		if _, ok := a.env[o]; !ok && vc.L != nil {
+			n.env[o] = x.mergeV(ca, x.freshValue(vc.T, "undef."+o.Name()), vc)
 		}
 	}
 	n.names = map[string]*Value{}
@@ -389,12 +433,12 @@ func (x *Exec) merge2(a, c *State) *State {
 		if hc, ok := c.heap[key]; ok {
 			n.heap[key] = x.b.Ite(ca, ha, hc)
 		} else {
-			n.heap[key] = x.b.Ite(ca, ha, x.b.Var("H0."+key, ha.Sort))
+			n.heap[key] = x.b.Ite(ca, ha, x.heapArr(c, key, ha.Sort.Elem))
 		}
 	}
 	for key, hc := range c.heap {
-		if _, ok := a.heap[key]; !ok {
-			n.heap[key] = x.b.Ite(ca, x.b.Var("H0."+key, hc.Sort), hc)
+		if _, ok := n.heap[key]; !ok {
+			n.heap[key] = x.b.Ite(ca, x.heapArr(a, key, hc.Sort.Elem), hc)
 		}
 	}
 	n.globals = map[string]*Value{}
@@ -411,6 +455,10 @@ func (x *Exec) merge2(a, c *State) *State {
 		}
 	}
 	n.alloc = x.b.Ite(ca, a.alloc, c.alloc)
+	n.pending = a.pending
+	if len(c.pending) > len(a.pending) {
+		n.pending = c.pending
+	}
 	n.defers = a.defers
 	if len(c.defers) != len(a.defers) {
 		// differing defer stacks cannot be merged; keep the longer (conservative: flagged)
@@ -501,7 +549,7 @@ func (x *Exec) execStmt(st *State, s ast.Stmt) *State {
 				continue
 			}
 			if len(vs.Values) == 1 && len(vs.Names) > 1 {
-				vals := x.evalMulti(st, vs.Values[0])
+				vals := x.evalCommaOk(st, vs.Values[0])
 				for i, n := range vs.Names {
 					x.define(st, n, vals[i])
 				}
@@ -657,7 +705,7 @@ func (x *Exec) execAssign(st *State, s *ast.AssignStmt) {
 	}
 	var vals []*Value
 	if len(s.Rhs) == 1 && len(s.Lhs) > 1 {
-		vals = x.evalMulti(st, s.Rhs[0])
+		vals = x.evalCommaOk(st, s.Rhs[0])
 		if len(vals) != len(s.Lhs) {
 			x.fail("assignment arity mismatch at %s", x.eng.srcText(s))
 			return
@@ -1114,35 +1162,57 @@ func (x *Exec) loopSpec(s ast.Stmt) (*LoopSpec, int) {
 	return c.Loops[n], n
 }
 
-// assignedIn collects local objects assigned in a statement list and whether
-// the heap / globals may be written.
-func (x *Exec) assignedIn(n ast.Node) (objs map[types.Object]bool, heapWrite bool) {
-	objs = map[types.Object]bool{}
+// frameInfo: what a statement may write.
+type frameInfo struct {
+	objs     map[types.Object]bool
+	heapAll  bool
+	heapKeys map[string]bool // key prefixes ("Struct.field", "map<..>", "cell<..>")
+	keep     func(string) bool
+}
+
+// assignedIn collects local objects assigned in a node and the heap
+// locations it may write (syntactically; calls through their contracts).
+func (x *Exec) assignedIn(n ast.Node) *frameInfo {
+	fi := &frameInfo{objs: map[types.Object]bool{}, heapKeys: map[string]bool{}}
 	var markL func(e ast.Expr)
 	markL = func(e ast.Expr) {
 		switch e := e.(type) {
 		case *ast.Ident:
 			if o := x.eng.info.Uses[e]; o != nil {
-				objs[o] = true
+				fi.objs[o] = true
+				if v, ok := o.(*types.Var); ok && v.Parent() == x.eng.pkg.Types.Scope() {
+					fi.heapKeys["global."+v.Name()] = true
+				}
 			}
 			if o := x.eng.info.Defs[e]; o != nil {
-				objs[o] = true
+				fi.objs[o] = true
 			}
 		case *ast.IndexExpr:
-			markL(e.X)
-			if _, isMap := x.eng.info.TypeOf(e.X).Underlying().(*types.Map); isMap {
-				heapWrite = true
+			if u, isMap := x.eng.info.TypeOf(e.X).Underlying().(*types.Map); isMap {
+				fi.heapKeys[mapKeyName(u)] = true
+				return
 			}
+			markL(e.X)
 		case *ast.SelectorExpr:
 			if t := x.eng.info.TypeOf(e.X); t != nil {
-				if _, isPtr := t.Underlying().(*types.Pointer); isPtr {
-					heapWrite = true
+				if p, isPtr := t.Underlying().(*types.Pointer); isPtr {
+					fi.heapKeys[structName(p.Elem())+"."+e.Sel.Name] = true
 					return
 				}
 			}
 			markL(e.X)
 		case *ast.StarExpr:
-			heapWrite = true
+			if t := x.eng.info.TypeOf(e.X); t != nil {
+				if p, isPtr := t.Underlying().(*types.Pointer); isPtr {
+					if kindOf(p.Elem()) == kStruct {
+						fi.heapKeys[structName(p.Elem())] = true
+					} else {
+						fi.heapKeys["cell<"+types.TypeString(p.Elem(), nil)+">"] = true
+					}
+					return
+				}
+			}
+			fi.heapAll = true
 		case *ast.ParenExpr:
 			markL(e.X)
 		}
@@ -1163,38 +1233,136 @@ func (x *Exec) assignedIn(n ast.Node) (objs map[types.Object]bool, heapWrite boo
 				markL(s.Value)
 			}
 		case *ast.CallExpr:
-			if !x.callIsPure(s) {
-				heapWrite = true
-			}
+			x.callFrame(s, fi)
 		case *ast.ValueSpec:
 			for _, id := range s.Names {
 				if o := x.eng.info.Defs[id]; o != nil {
-					objs[o] = true
+					fi.objs[o] = true
 				}
 			}
-		case *ast.FuncLit:
-			// closure bodies may assign captured vars when invoked
 		}
 		return true
 	})
-	return
+	return fi
 }
 
-func (x *Exec) havocLoopTargets(st *State, body ast.Node, extra ...ast.Node) {
-	objs, hw := x.assignedIn(body)
+// callFrame adds the write frame of a call.
+func (x *Exec) callFrame(c *ast.CallExpr, fi *frameInfo) {
+	if x.callIsPure(c) {
+		// copy() writes its destination slice variable
+		if id, ok := unparen(c.Fun).(*ast.Ident); ok && id.Name == "copy" && len(c.Args) > 0 {
+			if d, ok := unparen(c.Args[0]).(*ast.Ident); ok {
+				if o := x.eng.info.Uses[d]; o != nil {
+					fi.objs[o] = true
+				}
+			} else {
+				fi.heapAll = true
+			}
+		}
+		return
+	}
+	var callee *types.Func
+	switch f := unparen(c.Fun).(type) {
+	case *ast.Ident:
+		if b, ok := x.eng.info.Uses[f].(*types.Builtin); ok {
+			if b.Name() == "delete" && len(c.Args) > 0 {
+				if u, ok := x.eng.info.TypeOf(c.Args[0]).Underlying().(*types.Map); ok {
+					fi.heapKeys[mapKeyName(u)] = true
+					return
+				}
+			}
+			return
+		}
+		callee, _ = x.eng.info.Uses[f].(*types.Func)
+	case *ast.SelectorExpr:
+		if sel := x.eng.info.Selections[f]; sel != nil && sel.Kind() == types.MethodVal {
+			callee, _ = sel.Obj().(*types.Func)
+		} else {
+			callee, _ = x.eng.info.Uses[f.Sel].(*types.Func)
+		}
+	}
+	if callee != nil {
+		if ct := x.eng.cf.Contracts[funcQual(callee)]; ct != nil && !ct.Inline {
+			for _, m := range ct.Modifies {
+				if m == "*" || m == "heap" {
+					fi.heapAll = true
+				} else {
+					fi.heapKeys[strings.TrimSuffix(m, ".*")] = true
+				}
+			}
+			for _, ef := range ct.Effects {
+				if sel, ok := ef.LHS.(*ast.SelectorExpr); ok {
+					fi.heapKeys["*."+sel.Sel.Name] = true
+				} else if id, ok := ef.LHS.(*ast.Ident); ok {
+					fi.heapKeys["global.ghost."+id.Name] = true
+				}
+			}
+			return
+		}
+		if ct := x.eng.cf.Contracts[funcQual(callee)]; ct != nil && ct.Inline {
+			if fd := x.eng.funcs[funcQual(callee)]; fd != nil {
+				sub := x.assignedIn(fd.Body)
+				if sub.heapAll {
+					fi.heapAll = true
+				}
+				for k := range sub.heapKeys {
+					fi.heapKeys[k] = true
+				}
+				return
+			}
+		}
+	}
+	fi.heapAll = true
+}
+
+func (fi *frameInfo) matches(key string) bool {
+	for k := range fi.heapKeys {
+		if key == k || strings.HasPrefix(key, k+".") {
+			return true
+		}
+		if strings.HasPrefix(k, "*.") {
+			// "*.field": any struct's field of that name
+			rest := key
+			if i := strings.Index(rest, "."); i >= 0 {
+				f := rest[i+1:]
+				if f == k[2:] || strings.HasPrefix(f, k[2:]+".") {
+					return true
+				}
+			}
+		}
+	}
+	return false
+}
+
+func (x *Exec) havocLoopTargets(st *State, spec *LoopSpec, body ast.Node, extra ...ast.Node) {
+	fi := x.assignedIn(body)
 	for _, e := range extra {
 		if e == nil {
 			continue
 		}
-		o2, h2 := x.assignedIn(e)
-		for o := range o2 {
-			objs[o] = true
+		f2 := x.assignedIn(e)
+		for o := range f2.objs {
+			fi.objs[o] = true
 		}
-		hw = hw || h2
+		fi.heapAll = fi.heapAll || f2.heapAll
+		for k := range f2.heapKeys {
+			fi.heapKeys[k] = true
+		}
+	}
+	if spec != nil && len(spec.Modifies) > 0 {
+		fi.heapAll = false
+		fi.heapKeys = map[string]bool{}
+		for _, m := range spec.Modifies {
+			if m == "*" || m == "heap" {
+				fi.heapAll = true
+			} else if m != "nothing" {
+				fi.heapKeys[strings.TrimSuffix(m, ".*")] = true
+			}
+		}
 	}
 	// deterministic order
 	var keys []types.Object
-	for o := range objs {
+	for o := range fi.objs {
 		if _, ok := st.env[o]; ok {
 			keys = append(keys, o)
 		}
@@ -1203,11 +1371,28 @@ func (x *Exec) havocLoopTargets(st *State, body ast.Node, extra ...ast.Node) {
 	for _, o := range keys {
 		nv := x.freshValue(o.Type(), o.Name())
 		x.assumeWellFormed(st, nv)
-		x.assumeIntRange(st, nv)
 		st.env[o] = nv
 	}
-	if hw {
+	if fi.heapAll {
 		x.havocHeap(st, "loop", nil)
+		return
+	}
+	if len(fi.heapKeys) > 0 {
+		// make sure arrays that will be written exist, then havoc the matching ones
+		for k, a := range st.heap {
+			if fi.matches(k) {
+				st.heap[k] = x.b.Fresh("H."+k, a.Sort)
+			}
+		}
+		for k, g := range st.globals {
+			if fi.matches("global." + k) {
+				st.globals[k] = x.freshValue(g.T, "g."+k)
+			}
+		}
+	}
+	if fi.heapAll || len(fi.heapKeys) > 0 {
+		x.havocId++
+		st.pending = append(st.pending, &pendingHavoc{x.havocId, fi})
 	}
 }
 
@@ -1300,8 +1485,15 @@ func (x *Exec) runLoop(st *State, lp *loopParts) *State {
 // runLoopHavoc: invariant-based treatment (or plain havoc when spec==nil).
 func (x *Exec) runLoopHavoc(st *State, lp *loopParts, spec *LoopSpec, ord int) *State {
 	fr := x.frame()
+	invPos := lp.node.Pos() + 1
+	switch ln := lp.node.(type) {
+	case *ast.ForStmt:
+		invPos = ln.Body.Lbrace + 1
+	case *ast.RangeStmt:
+		invPos = ln.Body.Lbrace + 1
+	}
 	evalInv := func(s *State, cl *Clause) *Term {
-		return x.evalClause(s, cl, lp.node.Pos()+1)
+		return x.evalClause(s, cl, invPos)
 	}
 	// 1. invariant on entry
 	if spec != nil {
@@ -1316,7 +1508,7 @@ func (x *Exec) runLoopHavoc(st *State, lp *loopParts, spec *LoopSpec, ord int) *
 	}
 	// 2. havoc loop targets, assume invariant
 	h := st.clone()
-	x.havocLoopTargets(h, lp.bodyN, lp.postN)
+	x.havocLoopTargets(h, spec, lp.bodyN, lp.postN)
 	for _, o := range lp.extraObjs {
 		if _, ok := h.env[o]; ok {
 			nv := x.freshValue(o.Type(), o.Name())
@@ -1347,7 +1539,7 @@ func (x *Exec) runLoopHavoc(st *State, lp *loopParts, spec *LoopSpec, ord int) *
 	// 3. body preserves invariant
 	var variant0 *Term
 	if spec != nil && spec.Decreases != nil {
-		variant0 = x.evalClauseValue(h, spec.Decreases, lp.node.Pos()+1)
+		variant0 = x.evalClauseValue(h, spec.Decreases, invPos)
 	}
 	cf := &ctlFrame{label: lp.label, isLoop: true}
 	fr.ctl = append(fr.ctl, cf)
@@ -1365,7 +1557,7 @@ func (x *Exec) runLoopHavoc(st *State, lp *loopParts, spec *LoopSpec, ord int) *
 			x.oblige(next, "inv-preserve", inv.Name+".preserve", g, lp.node.Pos(), inv.Props)
 		}
 		if variant0 != nil {
-			v1 := x.evalClauseValue(next, spec.Decreases, lp.node.Pos()+1)
+			v1 := x.evalClauseValue(next, spec.Decreases, invPos)
 			zero := x.b.Num(big.NewInt(0), variant0.Sort)
 			g := x.b.And(x.b.Lt(v1, variant0, true), x.b.Le(zero, variant0, true))
 			x.oblige(next, "decreases", spec.Decreases.Name, g, lp.node.Pos(), spec.Decreases.Props)
@@ -1563,4 +1755,24 @@ func (x *Exec) runLoopRange(st *State, lp *loopParts, idxVar types.Object, kObj,
 		lp.extraObjs = append(lp.extraObjs, vObj)
 	}
 	return x.runLoop(st, lp)
+}
+
+// evalCommaOk evaluates the right-hand side of a two-value assignment.
+func (x *Exec) evalCommaOk(st *State, e ast.Expr) []*Value {
+	switch r := unparen(e).(type) {
+	case *ast.IndexExpr:
+		if t := x.eng.info.TypeOf(r.X); t != nil {
+			if _, ok := t.Underlying().(*types.Map); ok {
+				return x.evalIndex(st, r, true)
+			}
+		}
+	case *ast.TypeAssertExpr:
+		return x.evalTypeAssert(st, r, true)
+	case *ast.UnaryExpr:
+		if r.Op == token.ARROW {
+			v := x.evalUnary(st, r)
+			return []*Value{v, scalarV(types.Typ[types.Bool], x.b.Fresh("recv.ok", BoolSort))}
+		}
+	}
+	return x.evalMulti(st, e)
 }
